@@ -388,6 +388,12 @@ func (fe *FnExec) doBuiltin(fr *frame, st *State, in ssa.Instruction, b *ssa.Bui
 func (fe *FnExec) applyContract(fr *frame, st *State, in ssa.Instruction, site string, con *Contract, sig *types.Signature, full []Val, rt types.Type, hasRecv bool) Val {
 	binds := map[string]Val{}
 	fe.bindParams(binds, sig, full, hasRecv)
+	// parameters the callee's contract still calls by an older name (renamed since the expectation lists were written)
+	for name, h := range fe.eng.localHints[displayName(con.Key)] {
+		if _, have := binds[name]; !have && h.Param >= 0 && h.Param < len(full) {
+			binds[name] = full[h.Param]
+		}
+	}
 	pkg := fe.eng.pkgOfKey(con.Key)
 	mk := func(s *State, old *State) *EvalCtx {
 		c := &EvalCtx{fe: fe, st: s, old: old, binds: map[string]Val{}, pkg: pkg, conFile: con.File}
@@ -432,6 +438,11 @@ func (fe *FnExec) applyContract(fr *frame, st *State, in ssa.Instruction, site s
 	post := mk(st, pre)
 	post.hwPre, post.hwPost = hwPre, hwPost
 	post.bindResults(sig, rvs)
+	for name, h := range fe.eng.localHints[displayName(con.Key)] {
+		if _, have := post.binds[name]; !have && h.Res > 0 && h.Res-1 < len(rvs) {
+			post.binds[name] = rvs[h.Res-1] // a named result the callee's contract still calls by an older name
+		}
+	}
 	// let-bound names of the callee become fresh unknowns for the caller
 	for _, l := range con.Lets {
 		for _, n := range l.Names {
